@@ -11,7 +11,11 @@ for e in T:
     conf = m.get('confirmed_by_me', {}).get('result') or []
     c = "yes" if any('demo_with_patch_rc=101' in x for x in conf) and any('demo_without_patch_rc=0' in x for x in conf) and any('suite_with_patch_rc=0' in x for x in conf) else ("pending" if not conf else "see meta.json")
     first = "missed → strengthened" if e.get('missed_first') else "caught"
-    rows.append(f"| {e['id']} | {e['summary']} | {e['needs']} | {c} | {first} | {'; '.join(e['caught_by'])} |")
+    caught = '; '.join(e['caught_by'])
+    if e.get('neutralised_by'):
+        first = "missed → made harmless by a repair"
+        caught = f"— (no longer breaks the property since /repo `{e['neutralised_by']}`: {e.get('neutralised_note', '')})"
+    rows.append(f"| {e['id']} | {e['summary']} | {e['needs']} | {c} | {first} | {caught} |")
 missed = sum(1 for e in T if e.get('missed_first'))
 txt = f"""## 12. Seeded changes: which checks catch which changes
 
@@ -23,7 +27,8 @@ with it and passes without it) and then run against the checks on a private copy
 (`tools/try_seeded.sh`), never in `/repo`. Stored under `seeded/<id>/` (`patch.diff`, `demo.rs`,
 `notes.md`, `meta.json`). Of {len(T)} changes so far, {len(T) - missed} were caught by the first version of
 the check that faced them and {missed} were missed, after which the generators were strengthened (column
-"first run"; what was added is in each `meta.json`) — all {len(T)} are caught now. Lessons that were
+"first run"; what was added is in each `meta.json`) — all are caught now, except {sum(1 for e in T if e.get('neutralised_by'))} that a
+later repair of a genuine defect in `/repo` made harmless (the change relied on the defect; marked in the table). Lessons that were
 generalised beyond the single change: lengths on internal windows (512/1024/8192) with every kind of
 line end as the last octet; every reader-taking entry point driven with piecewise delivery, including
 "last octet alone"; near-miss values for every comparison (prefix, empty, extended); every container
